@@ -385,7 +385,11 @@ fn gen_stmt(r: &mut Rng, e: &mut Emit, depth: u32, budget: &mut i32) {
     }
     let t = NV;
     let k = *r.pick(&[1i64, 1, 1, 2, 3, -1, -2, 4, 5]);
-    let choice = r.below(if depth >= 2 { 9 } else { 13 });
+    let choice = match r.below(if depth >= 2 { 10 } else { 15 }) {
+        9 if depth >= 2 => 13,
+        13 | 14 => 13,
+        c => c,
+    };
     match choice {
         0 => e.add_const(x, *r.pick(&[1i64, 2, 3, -1, -2, 7, 8, -8])),
         1 => {
@@ -476,6 +480,33 @@ fn gen_stmt(r: &mut Rng, e: &mut Emit, depth: u32, budget: &mut i32) {
             e.add_const(t, -1);
             e.goto(t);
             e.out.push(']');
+        }
+        13 => {
+            // x += y*y (y consumed): the same cell on both sides of a product
+            let (t, t2, t3) = (NV, NV + 1, NV + 2);
+            e.goto(y);
+            e.out.push_str("[-");
+            e.add_const(t, 1);
+            e.add_const(t2, 1);
+            e.goto(y);
+            e.out.push(']');
+            e.goto(t);
+            e.out.push_str("[-");
+            e.goto(t2);
+            e.out.push_str("[-");
+            e.add_const(x, 1);
+            e.add_const(t3, 1);
+            e.goto(t2);
+            e.out.push(']');
+            e.goto(t3);
+            e.out.push_str("[-");
+            e.add_const(t2, 1);
+            e.goto(t3);
+            e.out.push(']');
+            e.goto(t);
+            e.out.push(']');
+            e.goto(t2);
+            e.out.push_str("[-]");
         }
         9 | 10 => {
             // while x { body; x -= step }
